@@ -28,6 +28,17 @@ def syms_of(u, acc):
             syms_of(u[f], acc)
 
 
+def _cr_class(u):
+    """does the pattern hold a character class that CR belongs to (a negated class, \\W, a class naming CR)?"""
+    if not isinstance(u, dict):
+        return False
+    if u.get("k") == "cls" and (u.get("neg") or 13 in u.get("s", [])):
+        return True
+    if u.get("k") == "wcls" and u.get("neg"):
+        return True
+    return any(_cr_class(u.get(f)) for f in ("a", "b"))
+
+
 def job_of(r, probe=None):
     j = dict(r["o"], patterns=[rr.render(p, r["fixed"]) for p in r["pats"]], fixed=r["fixed"])
     if '"nou"' in json.dumps(r["pats"]):
@@ -142,7 +153,8 @@ def main(tier):
                 drift += 1
             continue
         sig = {"kind": kind, "opts": sorted(k for k, v in r["o"].items() if v), "fixed": r["fixed"]}
-        if kind == "altered" and r["o"]["crlf"] and 13 in x["line"]:
+        if kind == "altered" and r["o"]["crlf"] and 13 in x["line"] and any(_cr_class(q) for q in r["pats"]):
+            # (only for patterns holding a class CR belongs to: that is what the stripping alters)
             sig["crlf_bare_cr"] = True
         chk.violation(sig, {"why": kind, "pattern": [rr.render(q, r["fixed"]) for q in r["pats"]], "witness_line": x["line"],
                             "witness_bytes": list(rr.sym_bytes(x["line"])), "probe": detail, "scenario": r,
